@@ -225,6 +225,31 @@ pub fn replay_one(c: &Value, idx: usize) -> (crate::erralg::Outcome, String, boo
                 prop.push(format!("{}: no diagnostic at any of the offending positions {} (diagnostics: {:?})", tag, v, cl.diags));
             }
         }
+        // .. and each documented option conflict has a diagnostic of its own: the violated conflict rules can be assigned distinct diagnostics, each at
+        // one of its rule's offending positions (two rules broken at the same tokens take two diagnostics there)
+        {
+            let rules: Vec<Vec<usize>> = c["expect"]["own"].as_array().map(|a| a.to_vec()).unwrap_or_default().iter().map(|v| {
+                let ranges: Vec<Range> = v.as_array().unwrap().iter().filter_map(|p| find(p)).collect();
+                (0..cl.diags.len()).filter(|j| ranges.iter().any(|r| within(r, cl.diags[*j].1))).collect()
+            }).collect();
+            if rules.iter().all(|r| !r.is_empty()) {
+                fn augment(i: usize, rules: &Vec<Vec<usize>>, owner: &mut Vec<Option<usize>>, seen: &mut Vec<bool>) -> bool {
+                    for &j in &rules[i] {
+                        if seen[j] { continue; }
+                        seen[j] = true;
+                        if owner[j].is_none() || augment(owner[j].unwrap(), rules, owner, seen) { owner[j] = Some(i); return true; }
+                    }
+                    false
+                }
+                let mut owner: Vec<Option<usize>> = vec![None; cl.diags.len()];
+                let mut matched = 0;
+                for i in 0..rules.len() { let mut seen = vec![false; cl.diags.len()]; if augment(i, &rules, &mut owner, &mut seen) { matched += 1; } }
+                if matched < rules.len() {
+                    prop.push(format!("{}: {} rules are violated ({}) but only {} of them can be given a diagnostic of their own at their offending positions (diagnostics: {:?})",
+                                      tag, rules.len(), c["expect"]["own"], matched, cl.diags));
+                }
+            }
+        }
         let may: Vec<Range> = c["expect"]["may_sit"].as_array().unwrap().iter().filter_map(|p| find(p)).collect();
         for d in &cl.diags {
             if !may.iter().any(|r| within(r, d.1)) {
